@@ -93,9 +93,15 @@ func genBatch(r *rand.Rand, dir string, idx int) batchSpec {
 		sp := scriptSpec{File: file, Name: name, Token: tok, Ending: endings[r.Intn(len(endings))]}
 		var sb strings.Builder
 		mark := 0
+		// in half of the scripts that fail anyway, the second deferred function itself fails (Fatalf)
+		abortingDefer := (sp.Ending == "fail" || sp.Ending == "fail-wait") && r.Intn(2) == 0
 		addMark := func() {
 			mark++
-			fmt.Fprintf(&sb, "defer-mark %d\n", mark)
+			if abortingDefer && mark == 2 {
+				fmt.Fprintf(&sb, "defer-mark %d abort\n", mark)
+			} else {
+				fmt.Fprintf(&sb, "defer-mark %d\n", mark)
+			}
 			sp.Marks = append(sp.Marks, mark)
 		}
 		sb.WriteString("snaptree\n")
